@@ -23,7 +23,7 @@ extern int sim_mutex_owned_by_me(void *m);
 /* sanitizer defaults: classify by exit status, no leak checking (VM teardown is exit) */
 __attribute__((used, visibility("default"))) const char *__asan_default_options(void) {
     return "exitcode=77:detect_leaks=0:abort_on_error=0:allocator_may_return_null=1:detect_stack_use_after_return=0:"
-           "handle_abort=1:max_malloc_fill_size=0";
+           "handle_abort=1:max_malloc_fill_size=0:max_allocation_size_mb=512";
 }
 __attribute__((used, visibility("default"))) const char *__ubsan_default_options(void) {
     return "halt_on_error=1:exitcode=77:print_stacktrace=1";
